@@ -306,6 +306,17 @@ def run(ctx):
                     dig = c04_child.digest_mazes(ds.mazes)
                     if trace["fp"] is not None:
                         entry_fps.add(trace["fp"])
+                    if h % 2 == 1:
+                        # the dataset that was handed back is used further by the caller (filtered, its metadata collected in place,
+                        # written in a compact format) before the configuration object is compared with what it was
+                        try:
+                            sub_ = ds.filter_by.path_length(min_length=0)
+                            sub_.filter_by.truncate_count(1)
+                            ds.filter_by.collect_generation_meta()
+                            ds._serialize_minimal()
+                            ctx.tally("c04:result-used-further-before-config-compared")
+                        except Exception:  # noqa: BLE001
+                            ctx.tally("c04:result-further-use-failed(not judged)")
                 except Exception as e:  # noqa: BLE001
                     dig = f"EXC:{type(e).__name__}:{str(e)[:200]}"
                     ops = ops if "ops" in dir() else []
